@@ -201,8 +201,13 @@ def fmt_num(v):
     if v == int(v) and abs(v) < 1e15:
         return repr(float(v))  # '2.0'
     r = repr(float(v))
-    if 'e' in r or 'E' in r or 'inf' in r or 'nan' in r:
+    if 'inf' in r or 'nan' in r:
         raise ValueError('unprintable constant %r' % v)
+    if 'e' in r or 'E' in r:
+        from decimal import Decimal
+        r = format(Decimal(r), 'f')          # 2e-07 -> 0.0000002 (the same float when read back)
+        if len(r) > 24 or float(r) != float(v):
+            raise ValueError('unprintable constant %r' % v)
     return r
 
 
@@ -287,7 +292,7 @@ LATTICE = [x * 0.5 for x in range(-8, 9)]
 class GenCfg(object):
     def __init__(self, vars=('a', 'b'), ops=None, max_depth=4, max_bound=4, strict_sorts=False,
                  p_reuse=0.0, lattice=None, top_formula=True, min_bound_width=0, allow_const_only=False,
-                 p_const_leaf=0.35, p_loose=0.08, pred_var_const=False, hi_min=0):
+                 p_const_leaf=0.35, p_loose=0.08, pred_var_const=False, hi_min=0, p_near=0.0):
         self.vars = list(vars)
         self.ops = set(ALL_OPS if ops is None else ops)
         self.max_depth = max_depth
@@ -301,6 +306,7 @@ class GenCfg(object):
         self.p_loose = p_loose
         self.pred_var_const = pred_var_const  # every predicate is  variable CMP constant
         self.hi_min = hi_min
+        self.p_near = p_near                  # a re-used sub-tree is sometimes a near copy: one constant differs in the 7th decimal
 
 
 class Gen(object):
@@ -331,6 +337,18 @@ class Gen(object):
 
     def const(self):
         return ['const', self._pick(self.cfg.lattice)]
+
+    def near_copy(self, f):
+        """f with one of its constants moved by a few 1e-7 (two requirements that differ in a late decimal only)"""
+        paths = [p for p, x in _subtree_paths(f) if x[0] == 'const']
+        if not paths:
+            return f
+        p = paths[self.rng.randrange(len(paths))]
+        x = f
+        for i in p:
+            x = children(x)[i]
+        v = round(x[1] + self.rng.choice([1e-7, 2e-7, 3e-7, 1e-10, 3e-10, 2e-12]), 13)
+        return _replace_at(f, p, ['const', v])
 
     def var(self):
         return ['var', self._pick(self.cfg.vars)]
@@ -406,7 +424,10 @@ class Gen(object):
         cfg = self.cfg
         rng = self.rng
         if self.pool_f and rng.random() < cfg.p_reuse:
-            return self._pick(self.pool_f)
+            f = self._pick(self.pool_f)
+            if cfg.p_near and rng.random() < cfg.p_near:
+                f = self.near_copy(f)
+            return f
         groups = []
         if d > 1:
             for name, grp, w in (('bun', BOOL_UN, 2), ('bbin', BOOL_BIN, 4), ('ev', EVENT, 1),
@@ -500,6 +521,18 @@ def _replace_at(n, path, new):
     ch = children(n)
     ch[path[0]] = _replace_at(ch[path[0]], path[1:], new)
     return with_children(n, ch)
+
+
+def add_near_duplicate(rng, ast, ops=('and', 'or', 'implies')):
+    """ast combined with a copy of one of its formula-valued sub-trees in which one constant differs in a late decimal
+    (two tolerance bands on the same expression); returns ast unchanged when it has no such sub-tree"""
+    cands = [x for p, x in _subtree_paths(ast) if (x[0] == 'pred' or x[0] in FORM_UN + FORM_BIN + TUN + TBIN or x[0] in TEMPORAL)
+             and any(y[0] == 'const' for y in walk(x))]
+    if not cands:
+        return ast
+    sub = cands[rng.randrange(len(cands))]
+    dup = Gen(rng, GenCfg()).near_copy(sub)
+    return [ops[rng.randrange(len(ops))], ast, dup] if rng.random() < 0.5 else [ops[rng.randrange(len(ops))], dup, ast]
 
 
 def modularize(rng, ast, max_subs=3, prefer_stateful=True, names=('p1', 'p2', 'p3', 'p4')):
